@@ -118,12 +118,12 @@ Inductive prim : Type :=
 | PGetOperator | PApply
 (* torch *)
 | PExpand | PClone | PMaskedFill | PMul | POnesLike | PSum | PKwsDim | PLt | PAny | PSqrt | PTorchTensor
-| PIndexPutFn | PViewFn | PExpandFn | PRightShape
+| PIndexPutFn | PViewFn | PExpandFn | PRightShape | PAbs | PPow
 (* python *)
 | PTuple | PItem0 | PItem1 | PMk
-| PSingleton | PWrapNeg | PAllNonneg | PComplement | PEmptyDims
+| PSingleton | PWrapNeg | PAllNonneg | PComplement | PEmptyDims | PIsCollection | PMapCollection
 (* sibling functions of the layer: meaning = the hand-written function of Weighted.v *)
-| PFilled | PValued | PMap | PMapBoth | PWsum | PSumM | PGetDim | PWsumDim | PView.
+| PFilled | PValued | PMap | PMapBoth | PWsum | PSumM | PGetDim | PWsumDim | PView | PWAbs.
 
 Inductive sx : Type :=
 | XVar (x : string)
@@ -223,7 +223,22 @@ Definition apply_prim (op : atom -> atom -> atom) (p : prim) (args : list sval) 
       | [VTen v; VMask m; f] => match as_atom f with Some a => SOk (VTen (masked_fill v m a)) | None => SStuck end
       | _ => SStuck
       end
-  | PMul => match args with [VWgt w; VTen v] => SOk (VTen (weight_times w v)) | _ => SStuck end
+  | PMul =>      (* weight * tensor ; python int * tensor *)
+      match args with
+      | [VWgt w; VTen v] => SOk (VTen (weight_times w v))
+      | [VInt z; VTen v] => SOk (VTen (tmap (amul (ofZ z)) v))
+      | _ => SStuck
+      end
+  | PAbs => match args with [VTen v] => SOk (VTen (tmap aabs v)) | _ => SStuck end
+  | PPow =>      (* tensor ** n for a natural number n (the model's [wpow]) *)
+      match args with
+      | [VTen v; VInt z] => if (0 <=? z)%Z then SOk (VTen (tmap (fun x => apow x (Z.to_nat z)) v)) else SStuck
+      | _ => SStuck
+      end
+  | PIsCollection =>      (* isinstance(r, (tuple, list, set, frozenset)): the functions of the model return ONE tensor *)
+      match args with [VTen _] => SOk (VBool false) | _ => SStuck end
+  | PMapCollection => SStuck
+  | PWAbs => match args with [VWT t] => SOk (VWT (wabs t)) | _ => SStuck end
   | POnesLike => match args with [VTen v] => SOk (VWgt (ones_like v)) | _ => SStuck end
   | PSum =>
       match args with
